@@ -629,7 +629,7 @@ class TrigTime:
         return await cls.hass.async_add_executor_job(functools.partial(func, **kwargs), *args)
 
     @classmethod
-    async def parse_date_time(cls, date_time_str, day_offset, now, startup_time):
+    async def parse_date_time(cls, date_time_str, day_offset, now, startup_time, year_offset=0):
         """Parse a date time string, returning datetime."""
         year = now.year
         month = now.month
@@ -647,6 +647,7 @@ class TrigTime:
                 year, month, day = int(match0[1]), int(match0[2]), int(match0[3])
             else:
                 month, day = int(match0[1]), int(match0[2])
+                year += year_offset
             day_offset = 0  # explicit date means no offset
             fixed_date = True
             dt_str = dt_str[len(match0.group(0)) :]
@@ -654,10 +655,8 @@ class TrigTime:
             skip = True
             if match1[1] in cls.dow2int:
                 dow = cls.dow2int[match1[1]]
-                if dow >= (now.isoweekday() % 7):
-                    day_offset = dow - (now.isoweekday() % 7)
-                else:
-                    day_offset = 7 + dow - (now.isoweekday() % 7)
+                # first such day of week on or after today + day_offset
+                day_offset += (dow - now.isoweekday() - day_offset) % 7
                 fixed_date = True
             elif match1[1] == "today":
                 day_offset = 0
@@ -834,16 +833,27 @@ class TrigTime:
                     next_time_adj = now + delta
 
             elif len(match1) == 3:
-                this_t, _ = await cls.parse_date_time(match1[1].strip(), 0, now, startup_time)
-                day_offset = (now - this_t).days + 1
-                if day_offset != 0 and this_t != startup_time:
-                    #
-                    # Try a day offset (won't make a difference if spec has full date)
-                    #
-                    this_t, _ = await cls.parse_date_time(match1[1].strip(), day_offset, now, startup_time)
+                once_str = match1[1].strip()
+                this_t, _ = await cls.parse_date_time(once_str, 0, now, startup_time)
                 startup = now == this_t and now == startup_time
-                if (now < this_t or startup) and (next_time is None or this_t < next_time):
-                    next_time_adj = next_time = this_t
+                if not startup and this_t != startup_time:
+                    #
+                    # A partial date (no year, a day of week or no date) stands for many days, so also
+                    # try the neighboring days, weeks and years, and take the earliest one in the future
+                    # (none of this makes a difference if spec has full date)
+                    #
+                    day_offset = (now - this_t).days + 1
+                    tries = {(0, 0), (0, -1), (0, 1)}
+                    for offset in (day_offset - 1, day_offset, day_offset + 1):
+                        tries |= {(offset, 0), (offset + 7, 0)}
+                    this_t = None
+                    for offset, year_offset in sorted(tries):
+                        try_t, _ = await cls.parse_date_time(once_str, offset, now, startup_time, year_offset)
+                        if now < try_t and (this_t is None or try_t < this_t):
+                            this_t = try_t
+                if this_t is not None and (now < this_t or startup):
+                    if next_time is None or this_t < next_time:
+                        next_time_adj = next_time = this_t
 
             elif len(match2) == 5:
                 start_str, period_str = match2[1].strip(), match2[2].strip()
